@@ -1171,7 +1171,7 @@ func c07(r *core.Run) {
 		}
 	})
 
-	r.Check("D5/K6/result-mapping", "in the MapReduce core's final select: ctx arm returns (nil, context.DeadlineExceeded); output arm returns the recorded cancel error when there is one, else (value, nil) only when a value was received, else ErrReduceNoOutput; no other result", func(o *core.O) {
+	r.Check("D5/K6/result-mapping", "in the MapReduce core's final select: ctx arm returns (nil, context.DeadlineExceeded); output arm returns the recorded cancel error when there is one, else (value, nil) only when a value was received, else - output closed empty - context.DeadlineExceeded when a poll finds the context done and ErrReduceNoOutput only when that poll found it open; no other result", func(o *core.O) {
 		if !o.Need(coreSel != nil, "the two-result function selecting on the panic channel (MapReduce core)") {
 			return
 		}
@@ -1214,6 +1214,16 @@ func c07(r *core.Run) {
 			_, ok := core.Reach(core.Q{From: heads(outArm), Target: core.Is(ret), Cut: core.CutSet(h)})
 			return !ok
 		}
+		// non-blocking polls of ctx.Done() in the core: edges on which the context was found done / not done
+		var ctxPollReady, ctxPollDefault []core.Edge
+		for _, s2 := range selects(f) {
+			if s2.Blocking || len(s2.States) != 1 || s2.States[0].Dir != types.RecvOnly || !isCtxDone(s2.States[0].Chan) {
+				continue
+			}
+			h, fl := core.EdgesOf(f, core.Cmp(token.EQL, selectIndex(s2), core.IsConstInt(0)))
+			ctxPollReady = append(ctxPollReady, h...)
+			ctxPollDefault = append(ctxPollDefault, fl...)
+		}
 		classes := map[string]int{}
 		rets = reach(outArm)
 		o.Site(len(rets))
@@ -1238,6 +1248,25 @@ func c07(r *core.Run) {
 				}
 				if !unreachableWithout(ret, core.Not(okTrue)) {
 					o.Fail(p.InstrPos(ret), "ErrReduceNoOutput returned although the reducer wrote a value")
+				}
+				// a done context wins over "no output": the guarded writer drops the reducer's write once the
+				// context is done, so an empty closed output proves nothing then (the final select picks at random
+				// among ready arms) - the no-output verdict needs a context poll that found it not done
+				if len(ctxPollReady) == 0 {
+					o.Fail(p.InstrPos(ret), "ErrReduceNoOutput is reported without polling the context: when the context is already done the reducer's write was dropped by the guarded writer and the call must return context.DeadlineExceeded")
+				} else if _, reach := core.Reach(core.Q{From: heads(outArm), Target: core.Is(ret), Cut: core.CutSet(ctxPollDefault)}); reach {
+					o.Fail(p.InstrPos(ret), "ErrReduceNoOutput can be reported on a path that did not find the context still open")
+				}
+			case isDeadline(e):
+				classes["deadline"]++
+				if !core.IsNil(core.Result(ret, 0)) {
+					o.Fail(p.InstrPos(ret), "a value is returned together with context.DeadlineExceeded")
+				}
+				if _, reach := core.Reach(core.Q{From: heads(outArm), Target: core.Is(ret), Cut: core.CutSet(ctxPollReady)}); reach || len(ctxPollReady) == 0 {
+					o.Fail(p.InstrPos(ret), "the output arm returns context.DeadlineExceeded on a path that did not find the context done")
+				}
+				if !unreachableWithout(ret, core.Not(okTrue)) {
+					o.Fail(p.InstrPos(ret), "context.DeadlineExceeded returned although the reducer's value was received")
 				}
 			case isLoadRes(e):
 				classes["cancel"]++
@@ -1365,6 +1394,44 @@ func c07(r *core.Run) {
 		if n == 0 {
 			o.Unres("no store to onceChan.channel found")
 		}
+		// (3) every other function that waits on the panic channel in a blocking select (ForEach): a return reached
+		// from another arm of that select passes a non-blocking poll of the panic channel first (both arms can be
+		// ready at once - the forwarder no longer waits for the receiver - and select picks at random)
+		isPoll := func(in ssa.Instruction) bool {
+			sel, ok := in.(*ssa.Select)
+			if !ok || sel.Blocking {
+				return false
+			}
+			for _, st := range sel.States {
+				if st.Dir == types.RecvOnly && core.FieldAddrNameOfLoad(core.Forward(st.Chan)) == "onceChan.channel" {
+					return true
+				}
+			}
+			return false
+		}
+		for _, sel := range psels {
+			g := sel.Parent()
+			if !sel.Blocking || g == f {
+				continue
+			}
+			kp := stateOf(sel, func(st *ssa.SelectState) bool {
+				return st.Dir == types.RecvOnly && core.FieldAddrNameOfLoad(core.Forward(st.Chan)) == "onceChan.channel"
+			})
+			if kp < 0 {
+				continue
+			}
+			r.Fn(core.FuncName(g))
+			for k := range sel.States {
+				if k == kp {
+					continue
+				}
+				arm := selectArm(g, sel, k)
+				o.Site(len(arm), core.FuncName(g))
+				if w, ok := core.Reach(core.Q{From: heads(arm), Target: core.IsReturn, Blocked: core.Or(isPoll, core.Is(sel))}); ok {
+					o.Fail(p.InstrPos(w), "%s returns from another arm of its select without polling the panic channel: when the forwarded panic and that arm are ready together the select may pick that arm, and the panic of a generator or mapper is swallowed", core.FuncName(g))
+				}
+			}
+		}
 		// (2) the deferred guard polls the panic channel after output is closed and re-raises
 		kOut := stateOf(coreSel, func(st *ssa.SelectState) bool {
 			return st.Dir == types.RecvOnly && strings.HasPrefix(chanID(st.Chan), "make:")
@@ -1469,8 +1536,8 @@ func c07(r *core.Run) {
 			return
 		}
 		for _, sel := range psels {
-			if sel.Parent() != f {
-				continue
+			if sel.Parent() != f || !sel.Blocking {
+				continue // a non-blocking poll of the panic channel is not the wait
 			}
 			o.Site(1, core.FuncName(f))
 			if w := core.Requires(f, core.IsReturn, core.Not(core.BoolVal(selectRecvOk(sel)))); w != nil {
